@@ -163,6 +163,9 @@ func Assert(b bool, id string) {
 
 type assertStop struct{ id string }
 
+// an assertion that fails in a goroutine other than the test's own ends the process: the runtime then prints this text
+func (a assertStop) Error() string { return "VERIF-ASSERT-FAILED:" + a.id + ":" }
+
 func Reach(id string) {}
 
 func Observe(tag string, v any) { observed = append(observed, fmt.Sprintf("%s=%v", tag, v)) }
